@@ -884,6 +884,10 @@ class BackendZ3(Backend):
     @condom
     def _primitive_from_model(self, model, expr):
         v = model.eval(expr, model_completion=True)
+        if z3.Z3_get_app_num_args(v.ctx.ctx, v.ast) != 0 and not z3.is_fp_value(v):
+            # not a value yet: Z3 leaves some terms of the model unevaluated (str.indexof with a start position beyond
+            # any string comes back as an If over constants); they fold to a value
+            v = z3.simplify(v)
         return self._abstract_to_primitive(v.ctx.ctx, v.ast)
 
     #
